@@ -44,3 +44,19 @@ func VerifC15_NameRule() {
 	verifrt.Reach("valid-ephemeral", got && len(name) > 10)
 	verifrt.Reach("invalid", !got && len(name) > 0)
 }
+
+// Short names exhaustively: every string of up to 3 arbitrary bytes, alone or followed by the
+// "#ephemeral" suffix (kept separate from the longer-name harness so that a hand-written,
+// branching validator cannot make this one explode).
+func VerifC15_ShortNameRule() {
+	base := verifrt.Bytes("base", 3)
+	name := base
+	if verifrt.Choice("ephemeral-suffix", 2) == 1 {
+		name = append(append([]byte{}, base...), []byte("#ephemeral")...)
+	}
+	got := protocol.IsValidTopicName(string(name))
+	verifrt.Assert(got == verifC15ValidNameRef(name), "short-name-rule")
+	verifrt.Assert(protocol.IsValidChannelName(string(name)) == got, "short-channel-rule-equals-topic-rule")
+	verifrt.Reach("bare-suffix-refused", len(base) == 0 && len(name) > 0 && !got)
+	verifrt.Reach("short-ephemeral-accepted", len(base) > 0 && len(name) > 10 && got)
+}
